@@ -7,6 +7,8 @@ id="$1"; target="$2"; runs="${PV_FUZZ_RUNS:-$3}"; maxlen="$4"
 # cargo-fuzz wants to start inside a cargo project and be told where the fuzz crate is
 cd "$ROOT/harness" || exit 2
 export CARGO_NET_OFFLINE=true PV_ROOT="$ROOT"
+# the programs leak on purpose (mem::forget of guards and drains)
+export ASAN_OPTIONS=detect_leaks=0:detect_odr_violation=0
 log="$ROOT/fuzz/$target.log"
 if ! cargo +nightly fuzz build --fuzz-dir "$ROOT/fuzz" "$target" >"$log" 2>&1; then
     echo "INCONCLUSIVE property=$id fuzz target $target does not build (see fuzz/$target.log)"; tail -5 "$log"
@@ -18,7 +20,7 @@ rm -rf "$run"; mkdir -p "$run" "$ROOT/fuzz/artifacts/$target"
 cp "$ROOT/fuzz/corpus/$target"/* "$run"/ 2>/dev/null
 seed="${VERIF_SEED:-1}"; [ "$seed" = 0 ] && seed=1
 start=$(date +%s)
-cargo +nightly fuzz run --fuzz-dir "$ROOT/fuzz" "$target" "$run" -- -runs="$runs" -seed="$seed" -len_control=0 -max_len="$maxlen" -timeout=20 -rss_limit_mb=4096 -print_final_stats=1 >>"$log" 2>&1
+cargo +nightly fuzz run --fuzz-dir "$ROOT/fuzz" "$target" "$run" -- -runs="$runs" -seed="$seed" -len_control=0 -max_len="$maxlen" -timeout=20 -rss_limit_mb=4096 -detect_leaks=0 -print_final_stats=1 >>"$log" 2>&1
 rc=$?
 secs=$(( $(date +%s) - start ))
 execs=$(grep -o "stat::number_of_executed_units: [0-9]*" "$log" | tail -1 | grep -o "[0-9]*$")
